@@ -28,6 +28,7 @@ import (
 	"os"
 	"path/filepath"
 	"slices"
+	"strings"
 	"sync"
 
 	"golang.org/x/exp/maps"
@@ -135,6 +136,10 @@ func (c *Converter) fromDirectory(source string) ([]byte, error) {
 	}
 	slices.Sort(fileNames)
 	fileNames = slices.Compact(fileNames)
+	/* Files whose names start with a period don't count. */
+	fileNames = slices.DeleteFunc(fileNames, func(fn string) bool {
+		return strings.HasPrefix(fn, ".")
+	})
 
 	/* Convert each file, appending to one big buffer. */
 	var buf bytes.Buffer
